@@ -154,7 +154,16 @@ struct Watchdog {
         th = std::thread([this, what, ms, announce] {
             t_role = -1;
             std::unique_lock<std::mutex> lk(m);
-            if (!cv.wait_for(lk, std::chrono::milliseconds(ms), [this] { return done; })) {
+            // time is counted in 100 ms slices and a slice only counts when this thread was woken on time:
+            // a stall of the whole machine (overloaded sandbox) is not mistaken for a blocked pipe
+            unsigned counted = 0;
+            while (!done && counted * 100 < ms) {
+                auto t0 = std::chrono::steady_clock::now();
+                if (cv.wait_for(lk, std::chrono::milliseconds(100), [this] { return done; })) break;
+                auto dt = std::chrono::duration_cast<std::chrono::milliseconds>(std::chrono::steady_clock::now() - t0).count();
+                if (dt < 300) ++counted;
+            }
+            if (!done) {
                 if (announce) { std::cout << "P " << what << " timeout\n"; std::cout.flush(); }
                 _exit(3);
             }
@@ -253,7 +262,7 @@ int main() {
             g_declared.push_back(p);
             std::cout << "P prod\n";
         } else if (w[0] == "run" && w.size() == 1 && g_live) {
-            Watchdog wd("run", 2 * watchdog_ms(), true);     // producers stuck in back-pressure for ever
+            Watchdog wd("run", 3 * watchdog_ms(), true);     // producers stuck in back-pressure for ever
             std::atomic<bool> go{false};
             std::vector<std::thread> ths;
             for (auto &p : g_declared) ths.emplace_back(producer_main, std::cref(p), g_seq[p.tid], std::ref(go));
